@@ -157,7 +157,14 @@ Returns:
 */
 func (ego *object) isEqual(another any) bool {
 	obj, ok := another.(*object)
-	if !ok || ego.Ego().Count() != obj.Count() {
+	if !ok {
+		// A derived structure embedding an object is compared from its side (there the embedded object is the receiver)
+		if derived, isObject := another.(Object); isObject {
+			return derived.isEqual(ego)
+		}
+		return false
+	}
+	if ego.Ego().Count() != obj.Count() {
 		return false
 	}
 	for k := range ego.val {
